@@ -100,8 +100,15 @@ def oracle(ctx, obs, max_py_cells):
                     r = ser[k][j]
                     if not (fin(r) and -SLACK <= r <= 1 + SLACK):
                         axes = "equal" if o["ls"] == o["li"] else "unequal"
-                        ctx.violation("S5", f"two-source rate {k} = {r!r} outside [0,1] at tau={tau!r} ({o['setup']}, n={n}, {axes} signal/idler axes)",
-                                      {"kind": "range", "channel": k, "axes": axes}, dict(rep, tau=tau, channel=k, rate=r, expected="0 <= rate <= 1",
+                        # the condition of C10_si_gt1_necessary / C10_range_partial: product of the norms of the channel's two cross grids vs N1*N2
+                        cross = {"ss": (2, 3), "ii": (4, 5), "si": (6, 7)}[k]
+                        nrm = [sum(abs(z) ** 2 for z in X) for X in A]
+                        Bk, N12 = nrm[cross[0]] * nrm[cross[1]], nrm[0] * nrm[1]
+                        cond = "violated" if Bk > N12 else "holds"
+                        ctx.violation("S5", f"two-source rate {k} = {r!r} outside [0,1] at tau={tau!r} ({o['setup']}, n={n}, {axes} signal/idler axes; "
+                                            f"cross-grid norm product / (N1 N2) = {Bk / N12!r}: norm condition {cond})",
+                                      {"kind": "range", "channel": k, "axes": axes, "norm_condition": cond},
+                                      dict(rep, tau=tau, channel=k, rate=r, expected="0 <= rate <= 1", cross_norm_ratio=Bk / N12,
                                                                                            finding="coq/Findings/C10_si_range.v" if (k == "si" and axes == "unequal") else None))
             # clause: V_ss = V_ii = sum s^4 / (sum s^2)^2 at zero delay (1e-9)
             if o.get("sv2") is not None:
@@ -194,11 +201,13 @@ def oracle(ctx, obs, max_py_cells):
                                           {"kind": "value_pair", "channel": k}, dict(rep, tau=tau, channel=k, rate=r, model=w), found_input=False)
 
 
-IMPORTS = "From Coq Require Import QArith Qabs List ZArith Bool.\nFrom SpdVerif Require Import Model.FinSum Model.Hom Model.Hom2.\nImport ListNotations.\n"
+IMPORTS = "From Coq Require Import QArith Qabs List ZArith Bool.\nFrom SpdVerif Require Import Model.FinSum Model.Hom Model.Hom2 Model.C10_Pyth.\nImport ListNotations.\n"
 DEFS = """
 Definition near (a b tol : Q) : bool := Qle_bool (Qabs (a - b)) tol.
 Definition chk_rates (n : nat) (l : list (list (cx Q))) (ss ii si tol : Q) :=
   let '(a, b, c) := ts_rates_Q0 n l in (near a ss tol, near b ii tol, near c si tol).
+Definition chk_pyth (n : nat) (l : list (list (cx Q))) (m0 k r : Z) (ss ii si tol : Q) :=
+  let '(a, b, c) := ts_rates_Qpyth n l m0 k r in (near a ss tol, near b ii tol, near c si tol).
 Definition chk_purity (n : nat) (F : list (cx Q)) (vss vii psv tol : Q) :=
   let p := purity_s_Q n F in let q := purity_i_Q n F in
   (near p vss tol, near q vii tol, near p psv tol, near p q 0).
@@ -251,6 +260,19 @@ def correspondence(ctx, obs, max_n_q, max_goals):
                 cid = f"i{len(goals)}"
                 goals.append((cid, f"Rabs (ts_rate_{k} ROps 2 {rec} (ts_phase_{k} {r1} {r2} {dt}) - {coq_hex(o['series'][k][1])}) <= 1e-9", "ts_case"))
                 gmeta[cid] = (o, k)
+    for o in obs:
+        if o["kind"] != "pyth" or "panic" in o["series"]:
+            continue
+        A = carrs(o)
+        if sum(abs(z) ** 2 for z in A[0]) == 0 or not all(is_finite_hex(o["series"][k][0]) for k in NAMES):
+            continue
+        cid = f"y{len(exprs)}"
+        lists = "[" + "; ".join(qarr(X) for X in o["arrays"]) + "]"
+        z = lambda v: f"({v})%Z"
+        exprs.append((cid, f"chk_pyth {o['n']} {lists} {z(o['m0'])} {z(o['k'])} {z(o['r'])} " + " ".join(qlit(frac_of_hex(o['series'][k][0])) for k in NAMES) + f" {qlit(TOL)}"))
+        meta[cid] = ("pyth", o)
+        ctx.seen(("pyth", o["setup"], o["n"], o["k"], o["r"], o["m0"], o["h"]))
+        ctx.count(f"pyth:n{o['n']}")
     order = sorted(range(len(exprs)), key=lambda i: -meta[exprs[i][0]][1]["n"])
     exprs = [exprs[i] for i in order]
     res = run_compute_cases(ctx, "C10", IMPORTS, DEFS, exprs, shards=min(NCPU, max(1, len(exprs))))
@@ -259,8 +281,13 @@ def correspondence(ctx, obs, max_n_q, max_goals):
         what, o = meta[cid]
         txt = res.get(cid) or ""
         flags = re.findall(r"true|false", txt)
-        rep = single_input(o) if o["kind"] == "single" else {"setup1": o["setup1"], "setup2": o["setup2"], "n": o["n"]}
-        if (what == "rates" and len(flags) != 3) or (what == "purity" and len(flags) != 4):
+        if what == "pyth":
+            rep = {"setup": o["setup"], "n": o["n"], "signal_axis_rad_per_s": [fl(h) for h in o["ls"]], "idler_axis_rad_per_s": [fl(h) for h in o["li"]],
+                   "delay_s": fl(o["dt"]), "delay": f"{o['m0']} * atan(4/3) / h, h = {fl(o['h'])!r}", "k": o["k"], "r": o["r"],
+                   "rates": [fl(o["series"][k][0]) for k in NAMES], "call": "spdc.hom_two_source_rate_series([delay], FrequencySpace::new(signal_axis, idler_axis), Integrator::default())"}
+        else:
+            rep = single_input(o) if o["kind"] == "single" else {"setup1": o["setup1"], "setup2": o["setup2"], "n": o["n"]}
+        if (what in ("rates", "pyth") and len(flags) != 3) or (what == "purity" and len(flags) != 4):
             ctx.case_failures.append({"case": cid})
             ctx.violation("S4", f"model evaluation failed for case {cid} ({what}, n={o['n']})", {"kind": "model_eval"}, dict(rep, output=txt[:400]), found_input=False)
             continue
@@ -268,7 +295,10 @@ def correspondence(ctx, obs, max_n_q, max_goals):
             ctx.cov["discharged"] += 1
             continue
         ctx.case_failures.append({"case": cid})
-        if what == "rates":
+        if what == "pyth":
+            ctx.violation("S4", f"non-zero delay {rep['delay']}: the exact four-index model with Pythagorean phases and hom_two_source_rate_series disagree beyond 1e-9 "
+                                f"(ss, ii, si agree: {flags}; n={o['n']}, {o['setup']})", {"kind": "value", "flags": ",".join(flags), "delay": "pyth"}, dict(rep, flags=flags), found_input=False)
+        elif what == "rates":
             ctx.violation("S4", f"zero delay: the exact four-index model on the jsa_range grids and hom_two_source_rate_series disagree beyond 1e-9 "
                                 f"(ss, ii, si agree: {flags}; n={o['n']}, {o['kind']})", {"kind": "value", "flags": ",".join(flags)}, dict(rep, flags=flags), found_input=False)
         else:
@@ -294,9 +324,9 @@ def run(ctx):
         ctx.proof_failures.append(("Gen/HomSrc.v", "translator", m))
     proved = (not msgs) and prove(ctx, "C10")
     quick = ctx.tier == "quick"
-    ncases, max_side, npairs = (28, 10, 12) if quick else (96, 24, 36)
+    ncases, max_side, npairs, npyth = (28, 10, 12, 36) if quick else (96, 24, 36, 120)
     # corpus of inputs that violated the property text before (the witness of Findings/C10_si_range.v), then the generated cases
-    obs = run_harness(ctx, binp, ["c10", "corpus"]) + run_harness(ctx, binp, ["c10", ctx.seed, ncases, max_side, npairs])
+    obs = run_harness(ctx, binp, ["c10", "corpus"]) + run_harness(ctx, binp, ["c10", ctx.seed, ncases, max_side, npairs, npyth])
     oracle(ctx, obs, 10**4 if quick else 24**4)
     okf, ffails, _ = coq_build(ctx, ["Findings/C10_si_range.vo"])
     if not okf:
@@ -306,7 +336,7 @@ def run(ctx):
             ctx.sample({"setup": o["setup"], "n": o["n"], "axes_mode": o["mode"], "v_ss": fl(o["vis"]["ss"][1]), "v_ii": fl(o["vis"]["ii"][1]),
                         "purity_sv": (fl(o["sv4"]) / fl(o["sv2"]) ** 2) if o.get("sv2") else None, "rates_tau0": [fl(o["series"][k][0]) for k in NAMES]})
     if os.path.exists(os.path.join(COQ, "Model", "Hom2.vo")):
-        correspondence(ctx, obs, 4 if quick else 6, 6 if quick else 30)
+        correspondence(ctx, obs, 4 if quick else 6, 3 if quick else 12)
     else:
         ctx.note("correspondence skipped: Model/Hom2.v did not compile")
     if (not proved or ctx.case_failures) and not any(v["found_input"] for v in ctx.violations):
@@ -329,8 +359,8 @@ def run(ctx):
         "rates ss, ii in [0,1] at every delay": "proved (C10_range_partial, C10_range_general)",
         "rate si in [0,1] at every delay": "REFUTED on unequal signal/idler axes (Findings/C10_si_range.v, replayed on the Rust code by the corpus case); proved_partial: proved on identical signal/idler axes (C10_range_same_axes) and under a norm condition on the two "
             "auxiliary grids; validated_only on unequal axes",
-        "implementation = model (eight grids, index permutations, phases, normalisation)": "validated: exact Q twin at zero delay (1e-9), interval goals on 2x2 "
-            "grids at non-zero delay, binary64 recomputation for every grid incl. two different sources"}
+        "implementation = model (eight grids, index permutations, phases, normalisation)": "validated: exact Q twin at zero delay and, with Pythagorean phases (3+4i)/5^m on arithmetic axes, at non-zero delays "
+            "m0 atan(4/3)/h on grids up to 4x4 (1e-9; twin = real model by C10_pyth_twin), a few interval goals on 2x2 grids, binary64 recomputation for every grid incl. two different sources"}
     return finish(ctx, assumptions=[
         "the sources' joint spectral amplitudes are arbitrary functions (oracles); the eight grids are compared through jsa_range on the same regions",
         "nalgebra's complex SVD returns the singular values of a unitary factorisation (validated per input via the power sums, not proved)",
